@@ -109,15 +109,26 @@ def canon(s):
     if t == "op":
         o, a, b = s[1], s[2], s[3]
         if o == ">":
-            return ["op", "<", b, a]
+            return canon(["op", "<", b, a])
         if o == ">=":
-            return ["op", "<=", b, a]
+            return canon(["op", "<=", b, a])
         if o == "!=":
             return canon(["not", canon(["op", "==", a, b])])
         if o in ("==", "|", "&", "+", "*", "^", "||", "&&"):
             # commutative (conditions in this crate are side-effect free, so || and && commute as well)
             if json.dumps(a, sort_keys=True) > json.dumps(b, sort_keys=True):
                 a, b = b, a
+        if a == b and o in ("<", "<=", "==") and a[0] in ("v", "n", "p", "remaining", "len", "fld", "cast", "be16"):
+            return ["bool", o != "<"]  # pure operands: x < x is false, x <= x and x == x are true
+        if o == "<" and b == ["n", 0]:
+            return ["bool", False]  # unsigned
+        if o == "<=" and a == ["n", 0]:
+            return ["bool", True]
+        if o in ("||", "&&") and (a[0] == "bool" or b[0] == "bool"):
+            k_, other = (a, b) if a[0] == "bool" else (b, a)
+            if o == "||":
+                return ["bool", True] if k_[1] else other
+            return other if k_[1] else ["bool", False]
         if a[0] == "n" and b[0] == "n":
             x, y = a[1], b[1]
             try:
@@ -171,6 +182,49 @@ def canon(s):
             return ["n", x[1] & ((1 << WIDTH[ty]) - 1)]
         return s
     return s
+
+
+def recanon(s):
+    """re-canonicalise a term bottom-up (after a substitution)"""
+    if not isinstance(s, list) or not s:
+        return s
+    s = [recanon(x) for x in s]
+    if s[0] in ("op", "not", "fld", "cast"):
+        return canon(s)
+    if s[0] in ("map_chunks2", "map_each") and s[1] == ["bytes_lit", []]:
+        return ["vec", []]
+    if s[0] == "len" and s[1] == ["bytes_lit", []]:
+        return ["n", 0]
+    return s
+
+
+def redundant_special_case(c, sa, sb):
+    """`if x == k { return A }; B` where B, specialised to x = k, does nothing but return A: the special case is
+    redundant and the canonical form is B alone.  Decided only for B made of guards and one infallible slice."""
+    if not (c[0] == "op" and c[1] == "==" and c[2][0] == "n"):
+        return False
+    k, x = c[2], c[3]
+    if sa["steps"] or not sa["ret"] or sa["ret"][0] != "ok" or not sb["ret"] or sb["ret"][0] != "ok":
+        return False
+    taken = {}
+    for st in sb["steps"]:
+        if st[0] == "guard":
+            g = recanon(subst(st[1], x, k))
+            for b_, v_ in taken.items():
+                g = recanon(subst(g, ["v", b_], v_))
+            if g != ["bool", False]:
+                return False
+        elif st[0] == "bytes" and st[3] == "X":
+            n = recanon(subst(st[2], x, k))
+            if n != ["n", 0]:
+                return False
+            taken[st[1]] = ["bytes_lit", []]
+        else:
+            return False
+    r = subst(sb["ret"][1], x, k)
+    for b_, v_ in taken.items():
+        r = subst(r, ["v", b_], v_)
+    return recanon(r) == recanon(sa["ret"][1])
 
 
 def sym_str(s):
@@ -450,6 +504,8 @@ class Builder:
         ca = self._last_child
         sb = self._nested(fb)
         cb = self._last_child
+        if redundant_special_case(c, sa, sb):
+            return self._splice(sb, cb)
         # a branch that only rejects is a guard
         if not sa["steps"] and sa["ret"] and sa["ret"][0] == "err" and sa["ret"][2] == "Error":
             self.guard(c, sa["ret"][1])
@@ -1009,8 +1065,8 @@ class Ev:
         k = s["k"]
         if k == "let":
             init = s.get("init")
-            if init is None or s.get("els") is not None:
-                raise Opaque("let without init / let-else")
+            if init is None:
+                raise Opaque("let without init")
             ie = strip(init)
             pat = s["pat"]
             tpl = self.as_tuple_result(ie, env, gen)
@@ -1021,8 +1077,16 @@ class Ev:
                     self.bind_pat(rem_pat, b.tok(), env)
                 self.bind_pat(val_pat, val, env)
                 return None
-            # pure let
-            v = self.sym_or_closure(ie, env, gen)
+            if s.get("els") is not None:
+                # let PAT = init else { diverge }
+                ie = {"k": "match", "scrut": init, "arms": [{"pat": pat, "guard": None, "body": {"k": "__bound__"}}, {"pat": {"k": "wild"}, "guard": None, "body": s["els"]}], "ty": ""}
+                v = self.eval_let_else(ie, pat, env, gen, b)
+                return None
+            if has_effects(ie):
+                v = self.eval_value_expr(ie, env, gen, b)
+            else:
+                # pure let
+                v = self.sym_or_closure(ie, env, gen)
             self.bind_pat(pat, v, env)
             return None
         if k in ("semi", "sexpr"):
@@ -1053,6 +1117,78 @@ class Ev:
         if k == "item":
             return None
         raise Opaque("statement kind " + k)
+
+    def option_split(self, sc):
+        """for a value of type Option<T> produced by a checked operation: (condition under which it is None, the value
+        it holds otherwise)"""
+        if sc[0] == "mcall" and re.fullmatch(r"core::num::<impl (u8|u16|u32|u64|usize)>::checked_sub", sc[1]) and len(sc[2]) == 2:
+            a, c = sc[2]
+            return lt(a, c), op("-", a, c)
+        return None
+
+    def eval_let_else(self, m, pat, env, gen, b):
+        """`let Some(x) = opt else { return Err(..) };`"""
+        sc = self.sym(m["scrut"], env, gen)
+        sp = self.option_split(sc)
+        p = pat
+        if sp is None or not (p["k"] == "ptuplestruct" and p["res"]["path"] == "core::option::Option::Some" and len(p["pats"]) == 1):
+            raise Opaque("let-else")
+        none_c, val = sp
+        els = m["arms"][1]["body"]
+        def diverge(nb):
+            self.eval_value_expr(els, env, gen, nb)
+            raise Opaque("else branch of let-else does not diverge")
+        b.ite(none_c, diverge, lambda nb: tup())
+        self.bind_pat(p["pats"][0], val, env)
+        return val
+
+    def eval_value_expr(self, e, env, gen, b):
+        """an expression of plain (non-Result) type that contains `?` or `return Err(..)`: emit its parser steps into b
+        and return its value"""
+        e = strip(e)
+        if not has_effects(e):
+            return self.sym(e, env, gen)
+        k = e["k"]
+        if k == "block":
+            env2 = dict(env)
+            for s in e["stmts"]:
+                r = self.eval_stmt(s, env2, gen, b, [], None)
+                if r is not None:
+                    raise Opaque("return of a value inside a value block")
+            if e["expr"] is None:
+                return tup()
+            return self.eval_value_expr(e["expr"], env2, gen, b)
+        if k == "if":
+            c = self.sym(e["c"], env, gen)
+            if e.get("f") is None:
+                raise Opaque("value if without else")
+            return b.ite(c, lambda nb: self.eval_value_expr(e["t"], env, gen, nb), lambda nb: self.eval_value_expr(e["f"], env, gen, nb))
+        if k == "ret":
+            x = strip(e["x"])
+            if x["k"] == "call" and path_of(x["f"]) == "core::result::Result::Err":
+                kind, sev = self.err_kind(x["args"][0])
+                b.fail(kind, sev)
+            raise Opaque("early return of a non-error inside a value expression")
+        if k == "match" and is_try(e) is None:
+            arms = e["arms"]
+            if len(arms) == 2:
+                some_arm = none_arm = None
+                for a in arms:
+                    p = a["pat"]
+                    if p["k"] == "ptuplestruct" and p["res"]["path"] == "core::option::Option::Some" and len(p["pats"]) == 1:
+                        some_arm = a
+                    elif (p["k"] == "pexpr" and p["e"].get("path") == "core::option::Option::None") or p["k"] == "wild":
+                        none_arm = a
+                if some_arm is not None and none_arm is not None and not some_arm.get("guard") and not none_arm.get("guard"):
+                    sp = self.option_split(self.sym(e["scrut"], env, gen))
+                    if sp is None:
+                        raise Opaque("match on an Option the analysis cannot split")
+                    none_c, val = sp
+                    env_s = dict(env)
+                    self.bind_pat(some_arm["pat"]["pats"][0], val, env_s)
+                    return b.ite(none_c, lambda nb: self.eval_value_expr(none_arm["body"], env, gen, nb), lambda nb: self.eval_value_expr(some_arm["body"], env_s, gen, nb))
+            return self.eval_match(e, env, gen, b, lambda body, env2, nb: self.eval_value_expr(body, env2, gen, nb))
+        raise Opaque("effectful value expression " + k)
 
     def eval_unit_result(self, e, env, gen, b, depth=0):
         """e : Result<(), Err>.  Emits the guards it stands for."""
@@ -1718,6 +1854,10 @@ class Ev:
                 if len(vals) == 1 and target == "<T as core::convert::Into<U>>::into" and e.get("ty") in WIDTH and strip(args[0]).get("ty") in WIDTH \
                         and WIDTH[e["ty"]] >= WIDTH[strip(args[0])["ty"]] and not strip(args[0])["ty"].startswith("i"):
                     return vals[0]
+                if target == "core::num::<impl u16>::from_be_bytes" and len(vals) == 1 and vals[0][0] == "array" and isinstance(vals[0][1], list) and len(vals[0][1]) == 2:
+                    hi, lo_ = vals[0][1]
+                    if hi[0] == "idx" and lo_[0] == "idx" and hi[1] == lo_[1] and hi[2] == ["n", 0] and lo_[2] == ["n", 1]:
+                        return ["be16", hi[1]]
                 return ["call", target, vals]
             if f["k"] == "local" and isinstance(env.get(f["id"]), Closure):
                 clo = env[f["id"]]
@@ -1746,6 +1886,9 @@ class Ev:
                 if recv[0] == "tokbytes":
                     return eq(REMAINING, N(0))
                 return eq(["len", recv], N(0))
+            if p == "core::slice::<impl [T]>::split_at" and len(args) == 1:
+                # (x[..n], x[n..]); the out-of-range panic is C01's business (PANIC-SITE split_at rule)
+                return tup(["slice_to", recv, args[0]], ["slice_from", recv, args[0]])
             if e.get("resolved_local") or (e.get("local") and not e.get("resolved")):
                 r = self.pure_call(p, [recv] + args, e)
                 if r[0] != "call":
@@ -1820,11 +1963,39 @@ class Ev:
         return ["lam", len(clo["params"]), self.sym(clo["body"], env2, gen)]
 
 
+def has_effects(e):
+    """does the expression contain `return` or `?` outside closures?"""
+    if isinstance(e, dict):
+        k = e.get("k")
+        if k == "closure":
+            return False
+        if k == "ret":
+            return True
+        if k == "match" and is_try(e) is not None:
+            return True
+        return any(has_effects(v) for v in e.values())
+    if isinstance(e, list):
+        return any(has_effects(v) for v in e)
+    return False
+
+
 ITER = "core::iter::traits::iterator::Iterator::"
 
 
 def canon_mcall(p, args):
     """semantic forms of the hand-written list decoders"""
+    if p in (ITER + "copied", ITER + "cloned") and len(args) == 1:
+        return args[0]  # element values are compared, not their addresses
+    if p == ITER + "map" and len(args) == 2:
+        src, f = args
+        if f[0] == "unit":
+            # a constructor or function used as the mapping function
+            f = ["lam", 1, ["ctor", f[1], [["lp", 0]]]]
+        if src[0] == "mcall" and src[1] == ITER + "map" and len(src[2]) == 2 and f[0] == "lam" and f[1] == 1 and src[2][1][0] == "lam" and src[2][1][1] == 1:
+            # map(g) after map(f) is map(g . f)
+            inner = src[2][1]
+            return ["mcall", p, [src[2][0], ["lam", 1, subst(f[2], ["lp", 0], inner[2])]]]
+        return ["mcall", p, [src, f]]
     if p == ITER + "collect" and len(args) == 1:
         m = args[0]
         if m[0] == "mcall" and m[1] == ITER + "map" and len(m[2]) == 2:
